@@ -181,6 +181,8 @@ def native_detect(rng, nrand):
     plan += [("dead", int(c)) for c in rng.integers(6, 378, nrand)] + [("noisy", int(c)) for c in rng.integers(6, 378, nrand)]
     plan += [("top", int(k)) for k in rng.integers(8, 41, nrand)]
     plan += [("top_gap", int(k)) for k in rng.integers(10, 41, max(1, nrand // 2))]
+    # a top block lacking the coherent spiking-band signal while a slow common-mode component (reference artefact, < 60 Hz) is seen by every channel
+    plan += [("top_slow_common_mode", int(k)) for k in rng.integers(8, 41, max(2, nrand // 2))]
     for kind, c in plan:
         raw = _synth(rng)
         want = np.zeros(384)
@@ -193,6 +195,10 @@ def native_detect(rng, nrand):
         else:
             raw[-c:] = rng.standard_normal((c, raw.shape[1])) * 5e-6
             want[-c:] = 3
+            if kind == "top_slow_common_mode":
+                tt = np.arange(raw.shape[1]) / 30000.0
+                slow = sum(np.sin(2 * np.pi * f * tt + rng.uniform(0, 6.28)) * float(rng.choice([100e-6, 400e-6])) for f in rng.uniform(2, 60, 4))
+                raw += slow[None, :]
             if kind == "top_gap":
                 # a second low-coherence block lower down: not contiguous with the top, must not become outside-brain (nor hide the top block)
                 lo, wd = int(rng.integers(60, 300)), int(rng.integers(8, 20))
@@ -200,7 +206,7 @@ def native_detect(rng, nrand):
         labels, _ = V.detect_bad_channels(raw, 30000.0)
         if kind == "top_gap":
             ok = np.all(labels[-c + 2:] == 3) and not np.any(labels[:-c - 2] == 3)
-        elif kind == "top":
+        elif kind in ("top", "top_slow_common_mode"):
             ok = np.all(labels[-c + 2:] == 3) and np.all(labels[:-c - 2] == 0)
         elif kind == "dead" and c == 383:
             # a silent last channel is also a top block of one channel: dead or outside-brain are both accepted
@@ -217,7 +223,7 @@ def native_detect(rng, nrand):
 
 
 @bounded(PROPERTY, "native_repair_and_detection", bound="interpolate_bad_channels on NP1 / NP2 / NPultra headers, 20 random label vectors each (thorough 200) incl. clusters, probe ends and top blocks 0..40: frame, zero fall-back, range of the sources; "
-         "detect_bad_channels on a coherent AP-band background with one silent / one noisy channel at both probe ends (0, 1, 3, 5, 378, 380, 382, 383 / 0, 2, 381, 383) and random positions, a silent top block of 8..40 (18 cases, thorough 102); per-file mode with a stubbed detector",
+         "detect_bad_channels on a coherent AP-band background with one silent / one noisy channel at both probe ends (0, 1, 3, 5, 378, 380, 382, 383 / 0, 2, 381, 383) and random positions, a silent top block of 8..40, also under a slow common-mode component shared by all channels (20 cases, thorough 117); per-file mode with a stubbed detector",
          clause="convex combination stays within the sources' range; injected faults are labelled; labels from a file are the per-channel mode")
 def b_native(B):
     rng = np.random.default_rng(B.seed)
